@@ -812,6 +812,10 @@ def oracle_routing(r: Runner) -> Optional[str]:
                         return "log grew after %s" % o
                     k += 1
                 continue
+            # the call raised before any executor ran: only legitimate when there is nothing to run it on
+            s = r.streams[o["s"]]
+            if not has_bad_wrapper(s.query_ast) and (o.get("ov") is not None or expected_executor(r, s)[0] == "d"):
+                return "%s raised %s instead of running the query" % (o, out[1])
             k += 1
         elif kind == "vf":
             if tuple(out[2]) != tuple(o["res"]):
@@ -835,6 +839,17 @@ def expected_executor(r: Runner, s):
     if node in found and node._eds_object in r.datasets:
         return ("d", r.datasets.index(node._eds_object))
     return ("?", -1)
+
+
+def has_bad_wrapper(n) -> bool:
+    """a MetaData(x, d) whose d is not a Python literal: remove_empty_metadata cannot evaluate it"""
+    for x in ast.walk(n):
+        if isinstance(x, ast.Call) and isinstance(x.func, ast.Name) and x.func.id == "MetaData" and len(x.args) == 2:
+            try:
+                ast.literal_eval(x.args[1])
+            except Exception:  # noqa
+                return True
+    return False
 
 
 def spec_remove_empty(n):
@@ -1001,18 +1016,20 @@ def quiet():
     logging.getLogger("func_adl.object_stream").setLevel(logging.CRITICAL)
 
 
-def run_batch(ctx, histories: List[List[dict]], focus=("dump", "lookup", "root")):
-    """run every history on both sides; yields (runner, diff)"""
+def run_batch(ctx, histories: List[List[dict]], focus=("dump", "lookup", "root"), chunk: int = 1500):
+    """run every history on both sides; yields (runner, diff).  Chunked so that the Python objects of at most
+    `chunk` histories are alive at a time."""
     quiet()
-    runners = []
-    rows = []
-    for h in histories:
-        r = Runner(h, focus=focus).run()
-        runners.append(r)
-        rows.append(["(" + " ".join(r.model_ops) + ")", "(" + " ".join(hx(k) for k in r.keys) + ")"])
-    answers = ctx.driver.call("hist", rows)
-    for r, a in zip(runners, answers):
-        yield r, compare(r, a)
+    for i in range(0, len(histories), chunk):
+        runners = []
+        rows = []
+        for h in histories[i:i + chunk]:
+            r = Runner(h, focus=focus).run()
+            runners.append(r)
+            rows.append(["(" + " ".join(r.model_ops) + ")", "(" + " ".join(hx(k) for k in r.keys) + ")"])
+        answers = ctx.driver.call("hist", rows)
+        for r, a in zip(runners, answers):
+            yield r, compare(r, a)
 
 
 def minimise(history: List[dict], fails, budget: int = 80) -> List[dict]:
